@@ -11,6 +11,12 @@ no repository code is imported or run.
                                   opaque path part; decides which characters of the path alphabet stay active by enumerating the finite
                                   set of character classes (a table over an abstract alphabet, not a run of the program)
   * element_aliases / index_kind  alias facts for a who-may-mutate rule over a result list and its element lists
+  * dict_entries / dict_var_entries / final_binding
+                                  how a mapping is put together (display with ** parts, dict(), |, update / setdefault / subscript stores on a
+                                  local) as an ordered entry list, and which entry decides one constant key (fixed / overridable / missing)
+  * reaching_defs / peel_order / origins
+                                  reaching definitions on the CFG and the order relation (same / reordered / subset) of the wrappers around a
+                                  sequence expression: where a list really comes from, on every path
 """
 from __future__ import annotations
 
@@ -289,10 +295,13 @@ def _simple_helper(f: pf.FuncDef) -> Optional[Tuple[List[str], ast.expr]]:
     return params, expand_locals_except(f, body[-1].value, params)  # type: ignore[return-value]
 
 
-def inline_expr_calls(m: pf.Module, e: ast.AST, cls: Optional[str] = None, depth: int = 3) -> ast.AST:
-    """Copy of e in which calls of module-level one-expression helpers (and, with cls, `self.h(..)` / `<cls>.h(..)` of that class)
-    are replaced by the helper's returned expression with the arguments substituted.  Other calls are left alone."""
+def inline_expr_calls(m: pf.Module, e: ast.AST, cls: Optional[str] = None, depth: int = 3, extra: Optional[Dict[str, ast.FunctionDef]] = None) -> ast.AST:
+    """Copy of e in which calls of module-level one-expression helpers (and, with cls, `self.h(..)` / `<cls>.h(..)` of that class; with
+    extra, the given plain functions called by bare name, e.g. nested defs of the analysed function) are replaced by the helper's returned
+    expression with the arguments substituted.  Other calls are left alone."""
     mod_funcs = {st.name: st for st in m.tree.body if isinstance(st, ast.FunctionDef)}
+    if extra:
+        mod_funcs.update({k: v for k, v in extra.items() if isinstance(v, ast.FunctionDef)})
     cls_funcs: Dict[str, ast.FunctionDef] = {}
     if cls is not None:
         try:
@@ -688,3 +697,369 @@ def index_kind(fn: pf.FuncDef, idx: ast.AST, result: str) -> str:
         if ds and all(isinstance(d, (ast.For, ast.comprehension)) for d in ds):
             return 'earlier'  # a loop index ranges over positions, not only the last one
     return 'unknown'
+
+
+# ------------------------------------------------------------------------------------------------
+# 6. how a dict is put together: which entry wins for one constant key
+# ------------------------------------------------------------------------------------------------
+# An ordered list of entries describes the construction of a mapping; later entries override earlier ones (dict display, dict(),
+# `|`, update, subscript store), except 'default' entries (setdefault / `if K not in d: d[K] = v`), which only fill a gap.
+#   ('key', <str>, value)      a constant string key
+#   ('dynkey', keyexpr, value) a key that is not a string constant
+#   ('spread', expr, None)     every entry of another mapping  (`**expr`, dict(expr), d.update(expr), d | expr)
+#   ('default', <str>, value)  setdefault
+
+Entry = Tuple[str, object, Optional[ast.AST]]
+
+
+class DictShapeError(AnalysisError):
+    pass
+
+
+def _is_dict_like(e: ast.AST) -> bool:
+    return isinstance(e, ast.Dict) or (isinstance(e, ast.Call) and isinstance(e.func, ast.Name) and e.func.id == 'dict') \
+        or (isinstance(e, ast.BinOp) and isinstance(e.op, ast.BitOr)) \
+        or (isinstance(e, ast.Call) and isinstance(e.func, ast.Attribute) and e.func.attr == 'copy' and not e.args and not e.keywords)
+
+
+def dict_entries(e: ast.AST) -> List[Entry]:
+    """Entries of a mapping EXPRESSION: dict display (with `**` parts), dict(m, k=v, **m2), a | b, m.copy().  Anything else is one opaque spread."""
+    out: List[Entry] = []
+    if isinstance(e, ast.Dict):
+        for k, v in zip(e.keys, e.values):
+            if k is None:
+                out += dict_entries(v) if _is_dict_like(v) else [('spread', v, None)]
+            else:
+                ks = pf.const_str(k)
+                out.append(('key', ks, v) if ks is not None else ('dynkey', k, v))
+        return out
+    if isinstance(e, ast.Call) and isinstance(e.func, ast.Name) and e.func.id == 'dict':
+        if len(e.args) > 1 or any(isinstance(a, ast.Starred) for a in e.args):
+            raise DictShapeError(f'`{pf.nsrc(e)}`: dict() call not recognised')
+        for a in e.args:
+            if isinstance(a, (ast.List, ast.Tuple, ast.ListComp, ast.GeneratorExp, ast.DictComp)):
+                raise DictShapeError(f'`{pf.nsrc(e)}`: dict() over a sequence of pairs / comprehension is not analysed')
+            out += dict_entries(a) if _is_dict_like(a) else [('spread', a, None)]
+        for k in e.keywords:
+            if k.arg is None:
+                out += dict_entries(k.value) if _is_dict_like(k.value) else [('spread', k.value, None)]
+            else:
+                out.append(('key', k.arg, k.value))
+        return out
+    if isinstance(e, ast.BinOp) and isinstance(e.op, ast.BitOr):
+        return dict_entries(e.left) + dict_entries(e.right)
+    if isinstance(e, ast.Call) and isinstance(e.func, ast.Attribute) and e.func.attr == 'copy' and not e.args and not e.keywords:
+        return dict_entries(e.func.value)
+    if isinstance(e, (ast.DictComp, ast.IfExp, ast.Constant, ast.List, ast.Tuple, ast.Set, ast.ListComp, ast.GeneratorExp, ast.Lambda)):
+        raise DictShapeError(f'`{pf.nsrc(e)}` is not a recognised mapping construction')
+    return [('spread', e, None)]
+
+
+def _splice(new: List[Entry], name: str, cur: Optional[List[Entry]]) -> List[Entry]:
+    out: List[Entry] = []
+    for ent in new:
+        if ent[0] == 'spread' and isinstance(ent[1], ast.Name) and ent[1].id == name:
+            if cur is None:
+                raise DictShapeError(f'`{name}` is used before it is defined')
+            out += cur
+        else:
+            out.append(ent)
+    return out
+
+
+def _default_if(st: ast.If, name: str) -> Optional[Entry]:
+    """`if K not in d: d[K] = v`  ->  ('default', K, v)"""
+    t = st.test
+    if st.orelse or len(st.body) != 1 or not (isinstance(t, ast.Compare) and len(t.ops) == 1 and isinstance(t.ops[0], ast.NotIn)
+                                             and isinstance(t.comparators[0], ast.Name) and t.comparators[0].id == name):
+        return None
+    k = pf.const_str(t.left)
+    b = st.body[0]
+    if k is None or not (isinstance(b, ast.Assign) and len(b.targets) == 1 and isinstance(b.targets[0], ast.Subscript)
+                         and isinstance(b.targets[0].value, ast.Name) and b.targets[0].value.id == name and pf.const_str(b.targets[0].slice) == k):
+        return None
+    return ('default', k, b.value)
+
+
+def dict_var_entries(stmts: Sequence[ast.stmt], name: str, key: str, ignore: Sequence[ast.AST] = ()) -> Optional[List[Entry]]:
+    """Entries of the mapping held by local `name` after the straight-line statement list `stmts` (each executed in order; an `if` whose
+    branches cannot bind `key` is skipped).  None when `name` is never assigned in them.  DictShapeError for anything not recognised:
+    removal, escape into a call, a conditional that may bind `key`, a loop that touches the name."""
+    cur: Optional[List[Entry]] = None
+    for st in stmts:
+        if any(st is x for x in ignore) or not any(isinstance(x, ast.Name) and x.id == name for x in ast.walk(st)):
+            continue
+        if isinstance(st, (ast.Assign, ast.AnnAssign)) and st.value is not None:
+            tgs = st.targets if isinstance(st, ast.Assign) else [st.target]
+            if len(tgs) == 1 and isinstance(tgs[0], ast.Name) and tgs[0].id == name:
+                cur = _splice(dict_entries(st.value), name, cur)
+                continue
+            if len(tgs) == 1 and isinstance(tgs[0], ast.Subscript) and isinstance(tgs[0].value, ast.Name) and tgs[0].value.id == name \
+                    and not any(isinstance(x, ast.Name) and x.id == name for x in ast.walk(st.value)):
+                if cur is None:
+                    raise DictShapeError(f'`{pf.nsrc(st)}`: `{name}` is not defined in the analysed block')
+                ks = pf.const_str(tgs[0].slice)
+                cur = cur + [('key', ks, st.value) if ks is not None else ('dynkey', tgs[0].slice, st.value)]
+                continue
+            if not any(isinstance(x, ast.Name) and x.id == name and isinstance(x.ctx, ast.Store) for t in tgs for x in ast.walk(t)):
+                # `name` only read on the right-hand side (e.g. `n = len(env)`, `x = env['A']`)
+                if _only_reads(st.value, name):
+                    continue
+            raise DictShapeError(f'`{pf.nsrc(st)}` not recognised')
+        if isinstance(st, ast.AugAssign) and isinstance(st.target, ast.Name) and st.target.id == name and isinstance(st.op, ast.BitOr):
+            if cur is None:
+                raise DictShapeError(f'`{pf.nsrc(st)}`: `{name}` is not defined in the analysed block')
+            cur = cur + _splice(dict_entries(st.value), name, cur)
+            continue
+        if isinstance(st, ast.Expr) and isinstance(st.value, ast.Call) and isinstance(st.value.func, ast.Attribute) and isinstance(st.value.func.value, ast.Name) \
+                and st.value.func.value.id == name:
+            c = st.value
+            if cur is None:
+                raise DictShapeError(f'`{pf.nsrc(st)}`: `{name}` is not defined in the analysed block')
+            if c.func.attr == 'update':  # type: ignore[attr-defined]
+                cur = cur + dict_entries(ast.Call(func=ast.Name('dict', ast.Load()), args=list(c.args), keywords=list(c.keywords)))
+                continue
+            if c.func.attr == 'setdefault' and len(c.args) == 2 and not c.keywords:  # type: ignore[attr-defined]
+                ks = pf.const_str(c.args[0])
+                if ks is None:
+                    raise DictShapeError(f'`{pf.nsrc(st)}`: setdefault with a computed key')
+                cur = cur + [('default', ks, c.args[1])]
+                continue
+            raise DictShapeError(f'`{pf.nsrc(st)}` not recognised')
+        if isinstance(st, ast.If):
+            d = _default_if(st, name)
+            if d is not None and cur is not None:
+                cur = cur + [d]
+                continue
+            if cur is not None:
+                harmless = True
+                for blk in (st.body, st.orelse):
+                    # the branch is analysed as a continuation of an (empty) mapping: it is harmless when all it does is bind OTHER constant keys
+                    if any(isinstance(b, (ast.Assign, ast.AnnAssign)) and any(isinstance(t_, ast.Name) and t_.id == name for t_ in (b.targets if isinstance(b, ast.Assign) else [b.target]))
+                           for b in blk):
+                        harmless = False
+                        break
+                    try:
+                        probe = dict_var_entries([ast.Assign(targets=[ast.Name(name, ast.Store())], value=ast.Dict(keys=[], values=[]), lineno=0)] + list(blk), name, key, ignore)
+                    except DictShapeError:
+                        harmless = False
+                        break
+                    if any(not (ent[0] == 'key' and ent[1] != key) for ent in (probe or [])):
+                        harmless = False
+                        break
+                if harmless and _only_reads(st.test, name):
+                    continue
+            raise DictShapeError(f'`{pf.nsrc(st.test)}`: conditional construction of `{name}` that may bind {key!r} (not analysed)')
+        if isinstance(st, (ast.Expr, ast.Return, ast.Assert)) and _only_reads(st, name):
+            continue
+        raise DictShapeError(f'`{pf.nsrc(st)[:90]}`: use of `{name}` not recognised')
+    return cur
+
+
+def _only_reads(node: ast.AST, name: str) -> bool:
+    """Every occurrence of `name` in node is a read that cannot change or leak the mapping: subscript load, .get/.items/.keys/.values, len(), `in`, f-string."""
+    par: Dict[ast.AST, ast.AST] = {}
+    for p in ast.walk(node):
+        for c in ast.iter_child_nodes(p):
+            par[c] = p
+    for x in ast.walk(node):
+        if not (isinstance(x, ast.Name) and x.id == name):
+            continue
+        if not isinstance(x.ctx, ast.Load):
+            return False
+        p = par.get(x)
+        if isinstance(p, ast.Subscript) and p.value is x and isinstance(p.ctx, ast.Load):
+            continue
+        if isinstance(p, ast.Attribute) and p.attr in ('get', 'items', 'keys', 'values', '__len__', '__contains__') and isinstance(par.get(p), ast.Call):
+            continue
+        if isinstance(p, ast.Call) and isinstance(p.func, ast.Name) and p.func.id in ('len', 'bool', 'sorted', 'list', 'str', 'repr') and x in p.args:
+            continue
+        if isinstance(p, ast.Compare) or isinstance(p, (ast.FormattedValue, ast.BoolOp, ast.UnaryOp)):
+            continue
+        if isinstance(p, (ast.If, ast.While, ast.IfExp, ast.Assert)) and getattr(p, 'test', None) is x:
+            continue
+        if isinstance(p, (ast.For, ast.comprehension)) and p.iter is x:
+            continue
+        return False
+    return True
+
+
+def final_binding(entries: List[Entry], key: str, spread_kind: Callable[[ast.AST], str]) -> Tuple[str, Optional[ast.AST], Optional[ast.AST]]:
+    """Which entry decides mapping[key]?  spread_kind(expr) -> 'may' (the spread mapping may contain the key) | 'never' | 'unknown'.
+       ('fixed', value, None)          the last unconditional binding of the key; nothing after it can replace it
+       ('overridable', value, spread)  a mapping that may contain the key is merged AFTER the binding (or the binding only fills a gap): that mapping wins
+       ('missing', None, spread|None)  the key is never bound by a constant entry
+    DictShapeError when a computed key or an unclassifiable spread decides."""
+    default: Optional[ast.AST] = None
+    for kind, k, v in reversed(entries):
+        if kind == 'key' and k == key:
+            return 'fixed', v, None
+        if kind == 'default' and k == key:
+            if default is None:
+                default = v
+            continue
+        if kind == 'dynkey':
+            raise DictShapeError(f'a computed key `{pf.nsrc(k)}` is bound after every binding of {key!r}')  # type: ignore[arg-type]
+        if kind == 'spread':
+            sk = spread_kind(k)  # type: ignore[arg-type]
+            if sk == 'never':
+                continue
+            if sk != 'may':
+                raise DictShapeError(f'`{pf.nsrc(k)}` is merged after every binding of {key!r} and it is not known whether it can contain that key')  # type: ignore[arg-type]
+            # what would the key be without that mapping?
+            base: Optional[ast.AST] = default
+            if base is None:
+                for kind2, k2, v2 in reversed(entries[:next(i for i, ent in enumerate(entries) if ent[1] is k)]):
+                    if kind2 in ('key', 'default') and k2 == key:
+                        base = v2
+                        break
+            if base is None:
+                return 'missing', None, k  # type: ignore[return-value]
+            return 'overridable', base, k  # type: ignore[return-value]
+    if default is not None:
+        return 'fixed', default, None
+    return 'missing', None, None
+
+
+# ------------------------------------------------------------------------------------------------
+# 7. where does a sequence come from: reaching definitions on the CFG + order relation of the wrappers around it
+# ------------------------------------------------------------------------------------------------
+
+ORDER_RANK = {'same': 0, 'reordered': 1, 'subset': 2, 'unknown': 3}
+
+
+def worse(a: str, b: str) -> str:
+    return a if ORDER_RANK[a] >= ORDER_RANK[b] else b
+
+
+def stores_name(n: pf.Node, name: str) -> bool:
+    """Does executing CFG node n (re)bind the local `name`?"""
+    a = n.ast
+    if a is None:
+        return False
+    if n.kind == 'loop' and isinstance(a, (ast.For, ast.AsyncFor)):
+        return any(isinstance(x, ast.Name) and x.id == name for x in ast.walk(a.target))
+    if n.kind == 'with' and isinstance(a, (ast.With, ast.AsyncWith)):
+        return any(it.optional_vars is not None and any(isinstance(x, ast.Name) and x.id == name for x in ast.walk(it.optional_vars)) for it in a.items)
+    if n.kind == 'except':
+        return getattr(a, 'name', None) == name
+    if n.kind in ('stmt', 'return', 'raise', 'test'):
+        if isinstance(a, (ast.For, ast.AsyncFor, ast.While, ast.If, ast.Try, ast.With, ast.AsyncWith, ast.FunctionDef, ast.AsyncFunctionDef, ast.ClassDef)):
+            if isinstance(a, (ast.With, ast.AsyncWith)):
+                return any(it.optional_vars is not None and any(isinstance(x, ast.Name) and x.id == name for x in ast.walk(it.optional_vars)) for it in a.items)
+            if isinstance(a, (ast.FunctionDef, ast.AsyncFunctionDef, ast.ClassDef)):
+                return a.name == name
+            return False
+        return any(isinstance(x, ast.Name) and x.id == name and isinstance(x.ctx, (ast.Store, ast.Del)) for x in pf.walk_shallow(a))
+    return False
+
+
+def reaching_defs(g: pf.CFG, name: str, at: pf.Node) -> Tuple[List[pf.Node], bool]:
+    """(definition nodes of `name` that reach node `at`, does the value `name` had on entry (a parameter) reach it).
+    A definition reaches `at` if some CFG path from it to `at` passes no other definition of the name."""
+    defs = [n for n in g.nodes if stores_name(n, name)]
+    out = [d for d in defs if g.path_avoiding(d, lambda n: n is at, lambda n: any(n is x for x in defs)) is not None]
+    entry = at is g.entry or g.path_avoiding(g.entry, lambda n: n is at, lambda n: any(n is x for x in defs)) is not None
+    return out, entry
+
+
+def peel_order(e: ast.AST) -> Optional[Tuple[str, ast.AST, str]]:
+    """One order-relevant wrapper around a sequence expression: (relation of e to the inner sequence, inner, how) or None.
+       same: list(x) tuple(x) x[:] x.copy() [*x] [v for v in x] copy.copy(x) copy.deepcopy(x)   reordered: sorted(x, ..) reversed(x) x[::-1]
+       subset: filter(f, x) [v for v in x if c] x[a:b] x[::k]"""
+    if isinstance(e, ast.Call) and not any(k.arg is None for k in e.keywords):
+        f = e.func
+        d = pf.dotted(f)
+        if isinstance(f, ast.Name) and f.id in ('list', 'tuple', 'iter') and len(e.args) == 1 and not e.keywords:
+            return 'same', e.args[0], f.id
+        if d in ('copy.copy', 'copy.deepcopy', 'deepcopy') and len(e.args) == 1:
+            return 'same', e.args[0], d
+        if isinstance(f, ast.Name) and f.id in ('sorted', 'reversed') and len(e.args) == 1:
+            return 'reordered', e.args[0], f.id
+        if isinstance(f, ast.Name) and f.id == 'filter' and len(e.args) == 2:
+            return 'subset', e.args[1], 'filter'
+        if d in ('random.sample',) and e.args:
+            return 'reordered', e.args[0], d
+        if isinstance(f, ast.Attribute) and f.attr == 'copy' and not e.args and not e.keywords:
+            return 'same', f.value, '.copy()'
+        return None
+    if isinstance(e, ast.BoolOp) and isinstance(e.op, ast.Or) and len(e.values) == 2 and isinstance(e.values[1], (ast.List, ast.Tuple)) and not e.values[1].elts:
+        return 'same', e.values[0], 'or []'
+    if isinstance(e, ast.Subscript) and isinstance(e.slice, ast.Slice):
+        sl = e.slice
+        if sl.lower is None and sl.upper is None:
+            if sl.step is None or pf.nsrc(sl.step) == '1':
+                return 'same', e.value, '[:]'
+            if pf.nsrc(sl.step) == '-1':
+                return 'reordered', e.value, '[::-1]'
+        return 'subset', e.value, 'slice'
+    if isinstance(e, (ast.List, ast.Tuple)) and len(e.elts) == 1 and isinstance(e.elts[0], ast.Starred):
+        return 'same', e.elts[0].value, '[*x]'
+    if isinstance(e, (ast.ListComp, ast.GeneratorExp)) and len(e.generators) == 1 and isinstance(e.generators[0].target, ast.Name) and isinstance(e.elt, ast.Name) \
+            and e.elt.id == e.generators[0].target.id and not e.generators[0].is_async:
+        return ('subset' if e.generators[0].ifs else 'same'), e.generators[0].iter, 'comprehension'
+    return None
+
+
+class Origin:
+    """One way a sequence expression can have been produced: `leaf` (an expression that is not a name / order wrapper, or the parameter
+    itself with at_entry=True) seen through wrappers whose combined order relation is `rel`; `via` lists the wrappers / rebinding statements."""
+    __slots__ = ('rel', 'leaf', 'node', 'at_entry', 'via')
+
+    def __init__(self, rel: str, leaf: ast.AST, node: Optional[pf.Node], at_entry: bool, via: List[str]):
+        self.rel, self.leaf, self.node, self.at_entry, self.via = rel, leaf, node, at_entry, via
+
+
+def origins(g: pf.CFG, e: ast.AST, at: pf.Node, params: Set[str], depth: int = 8, rel: str = 'same', via: Optional[List[str]] = None,
+            decide: Optional[Callable[[ast.AST, pf.Node], Optional[bool]]] = None) -> List[Origin]:
+    """All origins of the sequence denoted by expression e when evaluated at CFG node `at`: names are followed through the definitions that reach
+    `at` (plain assignment, tuple unpacking from a tuple display or from a conditional expression of tuple displays, conditional expression),
+    order wrappers are peeled.  Anything else is a leaf.  decide(test, node) may settle the test of a conditional expression (True / False / None)."""
+    via = list(via or [])
+    if depth <= 0:
+        return [Origin('unknown', e, at, False, via)]
+    if isinstance(e, ast.IfExp):
+        known = decide(e.test, at) if decide is not None else None
+        if known is not None:
+            return origins(g, e.body if known else e.orelse, at, params, depth - 1, rel, via, decide)
+        return origins(g, e.body, at, params, depth - 1, rel, via, decide) + origins(g, e.orelse, at, params, depth - 1, rel, via, decide)
+    if isinstance(e, ast.Name):
+        ds, entry = reaching_defs(g, e.id, at)
+        out: List[Origin] = []
+        if entry:
+            if e.id in params:
+                out.append(Origin(rel, e, None, True, via))
+            else:
+                out.append(Origin('unknown', e, at, False, via + [f'`{e.id}` may be unbound / global']))
+        for d in ds:
+            a = d.ast
+            val: Optional[ast.AST] = None
+            if isinstance(a, ast.Assign) and len(a.targets) == 1:
+                t = a.targets[0]
+                if isinstance(t, ast.Name):
+                    val = a.value
+                elif isinstance(t, (ast.Tuple, ast.List)) and all(isinstance(x, ast.Name) for x in t.elts):
+                    idx = [i for i, x in enumerate(t.elts) if x.id == e.id]  # type: ignore[attr-defined]
+
+                    def pick(v: ast.AST) -> Optional[ast.AST]:
+                        if isinstance(v, (ast.Tuple, ast.List)) and len(v.elts) == len(t.elts) and not any(isinstance(x, ast.Starred) for x in v.elts):  # type: ignore[union-attr]
+                            return v.elts[idx[0]]
+                        if isinstance(v, ast.IfExp):
+                            b, o = pick(v.body), pick(v.orelse)
+                            if b is not None and o is not None:
+                                return ast.IfExp(test=v.test, body=b, orelse=o)
+                        return None
+                    val = pick(a.value) if len(idx) == 1 else None
+            elif isinstance(a, ast.AnnAssign) and isinstance(a.target, ast.Name) and a.value is not None:
+                val = a.value
+            if val is None:
+                out.append(Origin('unknown', e, d, False, via + [f'`{pf.nsrc(a)[:80]}`' if a is not None else '?']))
+            else:
+                self_ref = any(isinstance(x, ast.Name) and x.id == e.id for x in ast.walk(val))
+                out += origins(g, val, d, params, depth - 1, rel, via + ([f'`{pf.nsrc(a)[:120]}`'] if self_ref or peel_order(val) is not None else []), decide)
+        return out
+    p = peel_order(e)
+    if p is not None:
+        r, inner, how = p
+        return origins(g, inner, at, params, depth - 1, worse(rel, r), via + ([f'`{pf.nsrc(e)[:120]}`'] if r != 'same' and not (via and pf.nsrc(e)[:60] in via[-1]) else []), decide)
+    return [Origin(rel, e, at, False, via)]
